@@ -22,6 +22,11 @@ type optSet struct {
 	T     int  `json:"trailer"` // number of grpc.Trailer options
 	Peer  bool `json:"peer,omitempty"`
 	Creds bool `json:"creds,omitempty"`
+	// X: one option of the kinds the channel does not act on today ("" = none), and
+	// Len: how the transport reports the length of a canned reply ("" = as the older
+	// phases do | declared | chunked). Both: extra.go.
+	X   string `json:"x,omitempty"`
+	Len string `json:"len,omitempty"`
 }
 
 func (o optSet) weight() int {
@@ -30,6 +35,12 @@ func (o optSet) weight() int {
 		w++
 	}
 	if o.Creds {
+		w++
+	}
+	if o.X != "" {
+		w++
+	}
+	if o.Len != "" {
 		w++
 	}
 	return w
@@ -53,10 +64,17 @@ func (o optSet) String() string {
 	if o.Creds {
 		p = append(p, "creds")
 	}
-	if len(p) == 0 {
-		return "none"
+	if o.X != "" {
+		p = append(p, o.X)
 	}
-	return strings.Join(p, "+")
+	s := "none"
+	if len(p) > 0 {
+		s = strings.Join(p, "+")
+	}
+	if o.Len != "" {
+		s += "/len=" + o.Len
+	}
+	return s
 }
 
 // allOptSets: {0,1,2} grpc.Header x {0,1,2} grpc.Trailer x {no,yes} grpc.Peer x
@@ -94,6 +112,7 @@ type optHandles struct {
 
 func (o optSet) build() *optHandles {
 	h := &optHandles{}
+	h.opts = append(h.opts, o.extraOpts()...)
 	if o.Creds {
 		h.opts = append(h.opts, grpc.PerRPCCredentials(tokCreds{}))
 	}
